@@ -117,6 +117,24 @@ class _FakePStore:
         return new
 
 
+class _TomlShim:
+    """tomli_w for repex.py: symbolic numbers are written as their exact tokens, everything else by the real library."""
+
+    @staticmethod
+    def dump(config, f):
+        import tomli_w
+
+        def conv(x):
+            if isinstance(x, Q):
+                return str(x)
+            if isinstance(x, dict):
+                return {k: conv(v) for k, v in x.items()}
+            if isinstance(x, (list, tuple)):
+                return [conv(v) for v in x]
+            return x
+        tomli_w.dump(conv(config), f)
+
+
 WORLD = None
 
 
@@ -126,6 +144,7 @@ def _install_world(world):
     rx.open = lambda name, mode="r", **kw: _FakeFile(world, name, mode)
     rx.os = _FakeOS(world)
     rx.make_dirs = lambda d: world.mkdirs.append(d)
+    rx.tomli_w = _TomlShim
 
 
 def install():
@@ -562,6 +581,10 @@ def restart_roundtrip(ctx, st, world, inflight, k):
         _install_world(saved_world)
         ctx.fail("C06:restart-re-issues-in-flight-jobs (exception)", repr(e))
         return
+    norm = lambda L: sorted((sorted(int(x) for x in l[0]), sorted(str(y) for y in l[1])) for l in L)
+    if nrec:
+        ctx.check(norm(st2.locked) == norm(st.locked), "C06:re-issued-jobs-stay-on-record-for-the-next-restart-file",
+                  f"{st2.locked} vs {st.locked}")
     want = sorted(sorted((e + 1, m["picked"][e]["traj"].path_number) for e in m["ens_nums"]) for m in inflight)
     ctx.check(sorted(reissued) == want, "C06:restart-re-issues-exactly-the-in-flight-jobs", f"{reissued} vs {want}")
     ctx.cover("restart:roundtrip")
